@@ -37,7 +37,7 @@ from pyint import Unsupported, mangle
 EXC = {'ValueError': '.py .valueError', 'TypeError': '.py .typeError', 'IndexError': '.py .indexError'}
 ANN = {'int': 'int', 'str': 'str', 'bool': 'bool'}
 LEAN_T = {'int': 'Int', 'str': 'Str', 'bool': 'Bool', 'optpoint': 'Option Point', 'obj': 'AStr',
-          'slist': 'List Setting', 'setting': 'Setting', 'point': 'Point'}
+          'slist': 'List Setting', 'setting': 'Setting', 'point': 'Point', 'optslist': 'Option (List Setting)'}
 
 
 class Sig:
@@ -68,9 +68,18 @@ class M:
 
     def pre(self, p):
         """the hoisted reads of the statement being translated (KeyError when the key is absent)"""
-        out = ''.join('%s(Obj.get %s.fmts %s).bind fun %s =>\n' % (p, d, k, v) for v, d, k in self.pending)
+        out = ''.join('%s(%s).bind fun %s =>\n' % (p, x, v) for v, x in self.pending)
         self.pending = []
         return out
+
+    def hoist(self, expr):
+        for v, x in self.pending:
+            if x == expr:
+                return v
+        self.nread += 1
+        v = 'p%d_' % self.nread
+        self.pending.append((v, expr))
+        return v
 
     def point_read(self, e, env):
         """O._fmts[k] as a value -> a hoisted variable holding the point"""
@@ -78,14 +87,23 @@ class M:
             d = self.is_fmts(e.value, env)
             if d and not isinstance(e.slice, ast.Slice):
                 k = self.typed(e.slice, env, 'int')
-                for v, d2, k2 in self.pending:
-                    if (d2, k2) == (d, k):
-                        return v
-                self.nread += 1
-                v = 'p%d_' % self.nread
-                self.pending.append((v, d, k))
-                return v
+                return self.hoist('Obj.get %s.fmts %s' % (d, k))
         return None
+
+    def assigned_none(self, name):
+        return any(isinstance(n, ast.Assign) and len(n.targets) == 1 and isinstance(n.targets[0], ast.Name) and n.targets[0].id == name
+                   and isinstance(n.value, ast.Constant) and n.value.value is None for n in ast.walk(self.fn))
+
+    def none_type(self, name):
+        """type of a variable that is assigned `None` somewhere: decided by its other assignments"""
+        for n in ast.walk(self.fn):
+            if isinstance(n, ast.Assign) and len(n.targets) == 1 and isinstance(n.targets[0], ast.Name) and n.targets[0].id == name:
+                v = n.value
+                if isinstance(v, (ast.List, ast.ListComp)) or (isinstance(v, ast.Call) and isinstance(v.func, ast.Name) and v.func.id == 'list'):
+                    return 'optslist'
+                if isinstance(v, ast.Call) and isinstance(v.func, ast.Attribute) and v.func.attr == 'pop':
+                    return 'optpoint'
+        return 'optpoint'
 
     # -- expressions ------------------------------------------------------------------------------
     def obj_of(self, e, env):
@@ -135,6 +153,40 @@ class M:
             return 'with_assertions', 'bool'
         if isinstance(e, ast.List) and not e.elts:
             return '([] : List Setting)', 'slist'
+        if isinstance(e, ast.Subscript) and not isinstance(e.slice, ast.Slice) and not self.is_fmts(e.value, env):
+            a, ta = self.ex(e.value, env)
+            if ta == 'slist':
+                i = self.typed(e.slice, env, 'int')
+                return self.hoist('Py.getIdx %s %s' % (a, i)), 'setting'      # IndexError outside the list
+        if isinstance(e, ast.Call) and isinstance(e.func, ast.Name) and e.func.id == 'list' and len(e.args) == 1 and not e.keywords:
+            return self.typed(e.args[0], env, 'slist'), 'slist'          # a copy: the same value
+        if isinstance(e, ast.Call) and isinstance(e.func, ast.Name) and e.func.id == '_AnsiSettingPoint':
+            flds = {}
+            for nm, a in zip(('add', 'rem'), e.args):
+                flds[nm] = a
+            for k in e.keywords:
+                if k.arg not in ('add', 'rem') or k.arg in flds:
+                    raise Unsupported(ast.unparse(e))
+                flds[k.arg] = k.value
+            if len(e.args) > 2:
+                raise Unsupported(ast.unparse(e))
+            parts = ['%s := %s' % (nm, self.typed(flds[nm], env, 'slist')) for nm in ('add', 'rem') if nm in flds]
+            return '({ %s } : Point)' % ', '.join(parts), 'point'
+        if isinstance(e, ast.ListComp) and len(e.generators) == 1 and isinstance(e.generators[0].target, ast.Name) \
+                and not e.generators[0].is_async and len(e.generators[0].ifs) == 1 \
+                and isinstance(e.elt, ast.Name) and e.elt.id == e.generators[0].target.id:
+            g = e.generators[0]
+            src = self.typed(g.iter, env, 'slist')
+            x = g.target.id
+            if x in env:
+                raise Unsupported('comprehension variable shadows ' + x)
+            before = len(self.pending)
+            env2 = dict(env); env2[x] = 'setting'
+            c = self.b(g.ifs[0], env2)
+            for v, ex_ in self.pending[before:]:
+                if mangle(x) in ex_.replace('.', ' ').replace('(', ' ').replace(')', ' ').split():
+                    raise Unsupported('a hoisted read depends on the comprehension variable')
+            return '((%s).filter (fun %s => %s))' % (src, mangle(x), c), 'slist'
         if isinstance(e, ast.UnaryOp) and isinstance(e.op, ast.USub):
             a, t = self.ex(e.operand, env)
             if t == 'int':
@@ -189,20 +241,26 @@ class M:
                         return '(%s / (%d : Int))' % (a, d.right.value), 'int'
         if isinstance(e, ast.Compare) and len(e.ops) == 1:
             o, l, r = e.ops[0], e.left, e.comparators[0]
-            if isinstance(o, (ast.In, ast.NotIn)):
+            if isinstance(o, (ast.In, ast.NotIn)) and self.is_fmts(r, env):
                 d = self.is_fmts(r, env)
-                if d:
-                    k, t = self.ex(l, env)
-                    if t == 'int':
-                        s = '(Obj.has %s.fmts %s)' % (d, k)
-                        return (s if isinstance(o, ast.In) else '(!%s)' % s), 'bool'
+                k, t = self.ex(l, env)
+                if t == 'int':
+                    s = '(Obj.has %s.fmts %s)' % (d, k)
+                    return (s if isinstance(o, ast.In) else '(!%s)' % s), 'bool'
+                raise Unsupported(ast.unparse(e))
+            if isinstance(o, (ast.In, ast.NotIn)) and not self.is_fmts(r, env):
+                a, ta = self.ex(l, env)
+                if ta == 'setting':
+                    L = self.typed(r, env, 'slist')
+                    s_ = '(hasTxt %s %s.txt)' % (L, a)          # AnsiSetting.__eq__ compares the text
+                    return (s_ if isinstance(o, ast.In) else '(!%s)' % s_), 'bool'
                 raise Unsupported(ast.unparse(e))
             if isinstance(o, (ast.Is, ast.IsNot)):
                 if isinstance(l, ast.Constant) and l.value is None:
                     l, r = r, l
                 if isinstance(r, ast.Constant) and r.value is None:
                     a, t = self.ex(l, env)
-                    if t == 'optpoint':
+                    if t in ('optpoint', 'optslist'):
                         return ('(%s).isNone' if isinstance(o, ast.Is) else '(%s).isSome') % a, 'bool'
                 raise Unsupported(ast.unparse(e))
             (a, ta), (b_, tb) = self.ex(l, env), self.ex(r, env)
@@ -215,14 +273,18 @@ class M:
 
     def b(self, e, env):
         a, t = self.ex(e, env)
-        if t == 'slist':
+        if t in ('slist', 'str'):
             return '(!(%s).isEmpty)' % a
+        if t == 'optslist':
+            return '(Py.truthyOptList %s)' % a
         if t != 'bool':
             raise Unsupported('truth value of a %s: %s' % (t, ast.unparse(e)))
         return a
 
     def typed(self, e, env, want):
         a, t = self.ex(e, env)
+        if want == 'slist' and t == 'optslist':
+            return self.hoist('Py.optGet %s' % a)          # a list is needed: `None` here is outside the model
         if t != want:
             raise Unsupported('%s expected: %s' % (want, ast.unparse(e)))
         return a
@@ -238,6 +300,13 @@ class M:
         K = lambda env2, ind2: self.block(rest, env2, k, ind2)
         p = '  ' * ind
         self.pending = []
+        r_ = self.point_stmt(st, env, K, ind)
+        if r_ is not None:
+            return r_
+        if isinstance(st, ast.Continue) and getattr(self, 'loop_exits', None):
+            return self.loop_exits[-1][0](env, ind)
+        if isinstance(st, ast.Break) and getattr(self, 'loop_exits', None):
+            return self.loop_exits[-1][1](env, ind)
         if isinstance(st, ast.Raise):
             exc = st.exc
             nm = exc.func.id if isinstance(exc, ast.Call) and isinstance(exc.func, ast.Name) else (exc.id if isinstance(exc, ast.Name) else None)
@@ -255,6 +324,65 @@ class M:
                 if ty == 'slist':
                     return p + '.ok %s' % a
             raise Unsupported('return ' + ast.unparse(st.value))
+        if isinstance(st, ast.If) and isinstance(st.test, ast.BoolOp) and len(st.test.values) >= 2:
+            # short circuit: an operand that may raise (an index, a `None` used as a list) is only evaluated
+            # when the operands before it do not decide
+            first, others = st.test.values[0], st.test.values[1:]
+            self.pending = []
+            tail = others[0] if len(others) == 1 else ast.BoolOp(op=st.test.op, values=others)
+            probe = self.b(tail, env)
+            effectful = bool(self.pending)
+            self.pending = []
+            if effectful:
+                inner = ast.If(test=tail, body=st.body, orelse=st.orelse)
+                if isinstance(st.test.op, ast.Or):
+                    outer = ast.If(test=first, body=st.body, orelse=[inner])
+                else:
+                    outer = ast.If(test=first, body=[inner], orelse=st.orelse)
+                return self.block([outer] + rest, env, k, ind)
+        if isinstance(st, ast.While):
+            # while P(X[0]): del X[0]
+            b_ = [x for x in st.body if not isinstance(x, ast.Pass)]
+            if not st.orelse and len(b_) == 1 and isinstance(b_[0], ast.Delete) and len(b_[0].targets) == 1 \
+                    and isinstance(b_[0].targets[0], ast.Subscript) and isinstance(b_[0].targets[0].value, ast.Name) \
+                    and env.get(b_[0].targets[0].value.id) == 'slist' and isinstance(b_[0].targets[0].slice, ast.Constant) \
+                    and b_[0].targets[0].slice.value == 0:
+                X = b_[0].targets[0].value.id
+                head = ast.Subscript(value=ast.Name(id=X, ctx=ast.Load()), slice=ast.Constant(value=0), ctx=ast.Load())
+                class Sub(ast.NodeTransformer):
+                    def __init__(s2): s2.other = False
+                    def visit_Subscript(s2, n):
+                        if ast.unparse(n) == ast.unparse(head):
+                            return ast.Name(id='h_', ctx=ast.Load())
+                        return s2.generic_visit(n)
+                    def visit_Name(s2, n):
+                        if n.id == X:
+                            s2.other = True
+                        return n
+                tr = Sub()
+                test = tr.visit(ast.parse(ast.unparse(st.test), mode='eval').body)
+                if not tr.other and 'h_' not in env:
+                    env2 = dict(env); env2['h_'] = 'setting'
+                    c = self.b(test, env2)
+                    for v, x in self.pending:
+                        if 'h_' in x.replace('.', ' ').replace('(', ' ').replace(')', ' ').split():
+                            raise Unsupported('a hoisted read depends on the head of the list')
+                    pre = self.pre(p)
+                    return '%s%s(Py.dropWhileHead (fun h_ => %s) %s).bind fun %s =>\n%s' % (pre, p, c, mangle(X), mangle(X), K(env, ind))
+            raise Unsupported('while ' + ast.unparse(st.test))
+        if isinstance(st, ast.For) and not st.orelse and isinstance(st.target, ast.Name) and len(st.body) == 1 \
+                and isinstance(st.body[0], ast.If) and not st.body[0].orelse and len(st.body[0].body) == 1:
+            # for k in list(O._fmts.keys()): if not O._fmts[k]: del O._fmts[k]     (order of the keys does not matter)
+            it, i0, d0 = st.iter, st.body[0], st.body[0].body[0]
+            if isinstance(it, ast.Call) and isinstance(it.func, ast.Name) and it.func.id == 'list' and len(it.args) == 1 \
+                    and isinstance(it.args[0], ast.Call) and isinstance(it.args[0].func, ast.Attribute) and it.args[0].func.attr == 'keys':
+                d = self.is_fmts(it.args[0].func.value, env)
+                k_ = st.target.id
+                if d and isinstance(i0.test, ast.UnaryOp) and isinstance(i0.test.op, ast.Not) \
+                        and ast.unparse(i0.test.operand) == ast.unparse(it.args[0].func.value) + '[%s]' % k_ \
+                        and isinstance(d0, ast.Delete) and len(d0.targets) == 1 and ast.unparse(d0.targets[0]) == ast.unparse(i0.test.operand) \
+                        and 'pointBool' in self.sigs:
+                    return '%slet %s : AStr := { %s with fmts := %s.fmts.filter (fun kp_ => pointBool kp_.2) }\n%s' % (p, d, d, d, K(env, ind))
         if isinstance(st, ast.If) and getattr(self, 'join', False) and rest:
             j = self.join_if(st, rest, env, K, ind)
             if j is not None:
@@ -298,7 +426,17 @@ class M:
                                 % (pre, p, d, key, p, x, p, d, d, K(env, ind)))
                 if t.id in env and env[t.id] == 'obj':
                     raise Unsupported('object variable reassigned: ' + t.id)
-                a, ty = self.ex(v, env)
+                if isinstance(v, ast.Call) and isinstance(v.func, ast.Name) and v.func.id == 'AnsiString' and not v.args and not v.keywords:
+                    env = dict(env); env[t.id] = 'obj'
+                    return '%slet %s : AStr := {}\n%s' % (p, mangle(t.id), K(env, ind))
+                if isinstance(v, ast.Constant) and v.value is None:
+                    ty = env.get(t.id) or self.none_type(t.id)
+                    a = '(none : %s)' % LEAN_T[ty]
+                else:
+                    a, ty = self.ex(v, env)
+                    want = env.get(t.id) or (self.none_type(t.id) if self.assigned_none(t.id) else None)
+                    if want == 'optslist' and ty == 'slist':
+                        a, ty = '(some %s)' % a, 'optslist'
                 pre = self.pre(p)
                 if t.id in env and env[t.id] != ty:
                     raise Unsupported('type of %s changes' % t.id)
@@ -331,6 +469,10 @@ class M:
                     if isinstance(v, ast.Call) and isinstance(v.func, ast.Name) and v.func.id == '_AnsiSettingPoint' and not v.args and not v.keywords:
                         pre = self.pre(p)
                         return ('%s%s(Obj.set %s.fmts %s ({} : Point)).bind fun f_ =>\n%s%s' % (pre, p, d, key, upd, K(env, ind)))
+                    if isinstance(v, ast.Call) and isinstance(v.func, ast.Name) and v.func.id == '_AnsiSettingPoint':
+                        pt = self.typed(v, env, 'point')
+                        pre = self.pre(p)
+                        return ('%s%s(Obj.set %s.fmts %s %s).bind fun f_ =>\n%s%s' % (pre, p, d, key, pt, upd, K(env, ind)))
             # O._fmts[k].add[lo:hi] = <list>
             if isinstance(t, ast.Subscript) and isinstance(t.slice, ast.Slice) and t.slice.step is None \
                     and isinstance(t.value, ast.Attribute) and t.value.attr in ('add', 'rem') and isinstance(t.value.value, ast.Subscript) \
@@ -387,6 +529,18 @@ class M:
                 pre = self.pre(p)
                 L = mangle(c.func.value.id)
                 return '%s%slet %s : List Setting := %s ++ [%s]\n%s' % (pre, p, L, L, x, K(env, ind))
+            # O._fmts[k].rem.extend(L)
+            if m == 'extend' and isinstance(c.func.value, ast.Attribute) and c.func.value.attr in ('add', 'rem') \
+                    and isinstance(c.func.value.value, ast.Subscript) and not isinstance(c.func.value.value.slice, ast.Slice) \
+                    and len(c.args) == 1 and not c.keywords:
+                d = self.is_fmts(c.func.value.value.value, env)
+                if d:
+                    key = self.typed(c.func.value.value.slice, env, 'int')
+                    L = self.typed(c.args[0], env, 'slist')
+                    fld = c.func.value.attr
+                    pre = self.pre(p)
+                    return ('%s%s(Obj.modifyAt %s.fmts %s (fun q_ => { q_ with %s := q_.%s ++ %s })).bind fun f_ =>\n%slet %s : AStr := { %s with fmts := f_ }\n%s'
+                            % (pre, p, d, key, fld, fld, L, p, d, d, K(env, ind)))
             # O._fmts[k].insert_settings(apply, settings, topmost=True)
             if m in self.sigs and isinstance(c.func.value, ast.Subscript) and not isinstance(c.func.value.slice, ast.Slice) \
                     and getattr(self.sigs[m], 'point', False):
@@ -414,6 +568,11 @@ class M:
                 pre = self.pre(p)
                 return '%s%slet %s : AStr := AStr.clip %s %s %s\n%s' % (pre, p, o, o, b1, b2, K(env, ind))
             raise Unsupported(ast.unparse(st))
+        if isinstance(st, ast.For) and not st.orelse and isinstance(st.target, ast.Tuple) and len(st.target.elts) == 3 \
+                and all(isinstance(x, ast.Name) for x in st.target.elts) and isinstance(st.iter, ast.Call) \
+                and isinstance(st.iter.func, ast.Name) and st.iter.func.id == '_AnsiSettingsIterator' and len(st.iter.args) == 1 \
+                and not st.iter.keywords and 'iterStep' in self.sigs:
+            return self.iter_loop(st, env, K, ind)
         if isinstance(st, ast.For) and not st.orelse and isinstance(st.target, ast.Name):
             it = st.iter
             for n in ast.walk(ast.Module(body=st.body, type_ignores=[])):
@@ -472,8 +631,178 @@ class M:
                 body = self.block(st.body, benv, lambda e2, i2: '  ' * i2 + '.ok %s' % L, ind + 2)
                 return ('%s%s(List.foldlM (fun (%s : List Setting) (%s : Setting) =>\n%s)\n%s  %s %s).bind fun %s =>\n%s'
                         % (pre, p, L, mangle(st.target.id), body, p, L, src, L, K(env, ind)))
-            raise Unsupported('loop ' + ast.unparse(st.iter))
+            return self.general_loop(st, env, K, ind)
         raise Unsupported(ast.unparse(st).split('\n')[0])
+
+    def field_of(self, t, env):
+        """PV.add / PV.rem for a variable PV that holds a point -> (PV, field)"""
+        if isinstance(t, ast.Attribute) and t.attr in ('add', 'rem') and isinstance(t.value, ast.Name) and env.get(t.value.id) == 'point':
+            return mangle(t.value.id), t.attr
+        return None
+
+    def point_stmt(self, st, env, K, ind):
+        """statements that edit a list of a point held in a variable (the point the iterator hands out is the
+        object stored in the dictionary: iter_loop writes it back)"""
+        p = '  ' * ind
+        self.pending = []
+        if isinstance(st, ast.Expr) and isinstance(st.value, ast.Call) and isinstance(st.value.func, ast.Attribute) \
+                and st.value.func.attr in ('append', 'extend') and len(st.value.args) == 1 and not st.value.keywords:
+            f = self.field_of(st.value.func.value, env)
+            if f:
+                if st.value.func.attr == 'append':
+                    x = '[%s]' % self.typed(st.value.args[0], env, 'setting')
+                else:
+                    x = self.typed(st.value.args[0], env, 'slist')
+                pre = self.pre(p)
+                return '%s%slet %s : Point := { %s with %s := %s.%s ++ %s }\n%s' % (pre, p, f[0], f[0], f[1], f[0], f[1], x, K(env, ind))
+        if isinstance(st, ast.Delete) and len(st.targets) == 1 and isinstance(st.targets[0], ast.Subscript) \
+                and not isinstance(st.targets[0].slice, ast.Slice):
+            f = self.field_of(st.targets[0].value, env)
+            if f:
+                i = self.typed(st.targets[0].slice, env, 'int')
+                pre = self.pre(p)
+                return ('%s%s(Py.delIdx %s.%s %s).bind fun l_ =>\n%slet %s : Point := { %s with %s := l_ }\n%s'
+                        % (pre, p, f[0], f[1], i, p, f[0], f[0], f[1], K(env, ind)))
+        if isinstance(st, ast.AugAssign) and isinstance(st.op, ast.Add):
+            f = self.field_of(st.target, env)
+            if f:
+                x = self.typed(st.value, env, 'slist')
+                pre = self.pre(p)
+                return '%s%slet %s : Point := { %s with %s := %s.%s ++ %s }\n%s' % (pre, p, f[0], f[0], f[1], f[0], f[1], x, K(env, ind))
+        if isinstance(st, ast.Assign) and len(st.targets) == 1 and isinstance(st.targets[0], ast.Subscript) \
+                and isinstance(st.targets[0].slice, ast.Slice) and st.targets[0].slice.step is None:
+            f = self.field_of(st.targets[0].value, env)
+            if f:
+                sl = st.targets[0].slice
+                lo = '(0 : Int)' if sl.lower is None else self.typed(sl.lower, env, 'int')
+                if sl.upper is None:
+                    raise Unsupported(ast.unparse(st))
+                hi = self.typed(sl.upper, env, 'int')
+                x = self.typed(st.value, env, 'slist')
+                pre = self.pre(p)
+                return ('%s%slet %s : Point := { %s with %s := Py.sliceAssign %s.%s %s %s %s }\n%s'
+                        % (pre, p, f[0], f[0], f[1], f[0], f[1], lo, hi, x, K(env, ind)))
+        return None
+
+    def general_loop(self, st, env, K, ind):
+        """for x in <list of settings> / for i in [reversed(]range(len(<list>))[)]: the loop state is the tuple of the
+        variables the body may change"""
+        p = '  ' * ind
+        it = st.iter
+        self.pending = []
+        elem = None
+        rev = False
+        rng = it
+        if isinstance(it, ast.Call) and isinstance(it.func, ast.Name) and it.func.id == 'reversed' and len(it.args) == 1 and not it.keywords:
+            rev, rng = True, it.args[0]
+        if isinstance(rng, ast.Call) and isinstance(rng.func, ast.Name) and rng.func.id == 'range' and len(rng.args) == 1 and not rng.keywords:
+            n = self.typed(rng.args[0], env, 'int')
+            src, elem = '(Py.%s %s)' % ('rangeDesc' if rev else 'rangeAsc', n), 'int'
+        elif not rev:
+            src, elem = self.typed(it, env, 'slist'), 'setting'
+        else:
+            raise Unsupported('loop ' + ast.unparse(it))
+        for n_ in ast.walk(ast.Module(body=st.body, type_ignores=[])):
+            if isinstance(n_, (ast.Break, ast.Continue, ast.Return)):
+                raise Unsupported('break/continue/return in a loop')
+        x = st.target.id
+        if x in env:
+            raise Unsupported('loop variable shadows an outer variable')
+        state = self.written(st.body, env)
+        if not state:
+            raise Unsupported('loop without effect')
+        pre = self.pre(p)
+        names = [mangle(v) for v in state]
+        tys = [LEAN_T[env[v]] for v in state]
+        benv = dict(env); benv[x] = elem
+        if len(state) == 1:
+            body = self.block(st.body, benv, lambda e2, i2: '  ' * i2 + '.ok %s' % names[0], ind + 2)
+            return ('%s%s(List.foldlM (m := Except Exc) (fun (%s : %s) (%s : %s) =>\n%s)\n%s  %s %s).bind fun %s =>\n%s'
+                    % (pre, p, names[0], tys[0], mangle(x), LEAN_T[elem], body, p, names[0], src, names[0], K(env, ind)))
+        tup = '(' + ', '.join(names) + ')'
+        q = '  ' * (ind + 2)
+        saved = getattr(self, 'loop_exits', None)
+        self.loop_exits = []            # a break/continue of an outer loop cannot be reached from here
+        try:
+            body = self.block(st.body, benv, lambda e2, i2: '  ' * i2 + '.ok %s' % tup, ind + 2)
+        finally:
+            self.loop_exits = saved if saved is not None else []
+        return ('%s%s(List.foldlM (m := Except Exc) (fun (st_ : %s) (%s : %s) =>\n%smatch st_ with\n%s| %s =>\n%s)\n%s  %s %s).bind fun st_ =>\n%smatch st_ with\n%s| %s =>\n%s'
+                % (pre, p, ' × '.join(tys), mangle(x), LEAN_T[elem], q, q, tup, body, p, tup, src, p, p, tup, K(env, ind)))
+
+    def written(self, body, env):
+        """variables of `env` that the statements may change, in order of first appearance"""
+        out = []
+        def base(t):
+            while isinstance(t, (ast.Attribute, ast.Subscript)):
+                t = t.value
+            return t.id if isinstance(t, ast.Name) else None
+        for n in ast.walk(ast.Module(body=body, type_ignores=[])):
+            names = []
+            if isinstance(n, (ast.Assign, ast.AugAssign)):
+                names += [base(t) for t in (n.targets if isinstance(n, ast.Assign) else [n.target])]
+            if isinstance(n, ast.Delete):
+                names += [base(t) for t in n.targets]
+            if isinstance(n, ast.Call) and isinstance(n.func, ast.Attribute) and n.func.attr in ('append', 'extend', 'insert_settings', 'pop', 'clip') \
+                    or isinstance(n, ast.Call) and isinstance(n.func, ast.Attribute) and n.func.attr in self.sigs:
+                names.append(base(n.func.value))
+            for x in names:
+                if x and x in env and x not in out:
+                    out.append(x)
+        return out
+
+    def iter_loop(self, st, env, K, ind):
+        """for IDX, PT, CUR in _AnsiSettingsIterator(O._fmts): BODY      (break / continue allowed)
+
+        The iterator takes the sorted keys once, and at every step fetches the point *then* stored under the key,
+        removes its stop markers from `current_settings` by identity and appends its start markers (`iterStep`,
+        translated from `__next__`).  The loop state is the variables BODY may change, the iterator's
+        `current_settings` and a flag that a `break` sets."""
+        p = '  ' * ind
+        d = self.is_fmts(st.iter.args[0], env)
+        if not d:
+            raise Unsupported('iterator over ' + ast.unparse(st.iter.args[0]))
+        IDX, PT, CUR = [x.id for x in st.target.elts]
+        if any(x in env for x in (IDX, PT, CUR)):
+            raise Unsupported('loop variable shadows an outer variable')
+        state = self.written(st.body, env)
+        edits = PT in self.written(st.body, {PT: 'point'})
+        if edits and st.iter.args[0].value.id not in state:
+            state = [st.iter.args[0].value.id] + state
+        if not state:
+            raise Unsupported('loop without effect')
+        tys = [LEAN_T[env[x]] for x in state] + ['List Setting', 'Bool']
+        names = [mangle(x) for x in state]
+        def tup(last, ind2=None):
+            t = '(' + ', '.join(names + ['cur_', last]) + ')'
+            if ind2 is None or not edits:
+                return t
+            q2 = '  ' * ind2
+            # the point is the object stored under the key: what the body did to it is in the dictionary
+            return ('(Obj.modifyAt %s.fmts %s (fun _ => %s)).bind fun f_ =>\n%slet %s : AStr := { %s with fmts := f_ }\n%s.ok %s'
+                    % (d, mangle(IDX), mangle(PT), q2, d, d, q2, t))
+        benv = dict(env); benv[IDX] = 'int'; benv[PT] = 'point'; benv[CUR] = 'slist'
+        if not hasattr(self, 'loop_exits'):
+            self.loop_exits = []
+        def exit_(last):
+            def f(e2, i2):
+                t = tup(last, i2)
+                return '  ' * i2 + (t if t.startswith('(Obj.modifyAt') else '.ok ' + t)
+            return f
+        self.loop_exits.append((exit_('false'), exit_('true')))
+        try:
+            body = self.block(st.body, benv, self.loop_exits[-1][0], ind + 2)
+        finally:
+            self.loop_exits.pop()
+        q = '  ' * (ind + 2)
+        head = ('%s(List.foldlM (m := Except Exc) (fun (st_ : %s) (%s : Int) =>\n%smatch st_ with\n%s| %s =>\n%sif done_ then .ok st_ else\n'
+                '%s(Obj.get %s.fmts %s).bind fun %s =>\n%s(iterStep cur_ %s %s).bind fun %s =>\n%slet cur_ : List Setting := %s\n'
+                % (p, ' × '.join(tys), mangle(IDX), q, q, tup('done_'), q, q, d, mangle(IDX), mangle(PT), q, mangle(PT),
+                   'true' if getattr(self, 'with_assertions', False) else 'false', mangle(CUR), q, mangle(CUR)))
+        init = '(' + ', '.join(names + ['([] : List Setting)', 'false']) + ')'
+        out_tup = '(' + ', '.join(names + ['_', '_']) + ')'
+        return ('%s%s)\n%s  %s (Obj.keysAsc %s.fmts)).bind fun st_ =>\n%smatch st_ with\n%s| %s =>\n%s'
+                % (head, body, p, init, d, p, p, out_tup, K(env, ind)))
 
     def join_if(self, st, rest, env, K, ind):
         """`if c: A [else: B]` whose branches fall through (no return/raise) and define nothing that is used
@@ -482,7 +811,7 @@ class M:
         branches = ast.Module(body=st.body + st.orelse, type_ignores=[])
         state = []
         for n in ast.walk(branches):
-            if isinstance(n, (ast.Return, ast.Raise)):
+            if isinstance(n, (ast.Return, ast.Raise, ast.Break, ast.Continue)):
                 return None
             names = []
             if isinstance(n, (ast.Assign, ast.AugAssign)):
@@ -542,11 +871,11 @@ class M:
             out.append(self.typed(e, env if n in given else {}, t))
         return out
 
-    def lean(self, name, doc, after=None, entry=None):
+    def lean(self, name, doc, after=None, entry=None, after_store=None):
         """whole method, or — `after`/`entry` given — the statements that follow the first top-level
         `<x> = ….<after>(…)`, as a function of `self` and the variables `entry` = [(name, type)] live there"""
         body = self.fn.body
-        if after is None:
+        if after is None and after_store is None:
             env = {'self': 'obj'}
             for n, t, _ in self.sig.params:
                 env[n] = t
@@ -554,6 +883,16 @@ class M:
         else:
             idx = None
             for i, st in enumerate(body):
+                if after_store and isinstance(st, ast.Assign) and len(st.targets) == 1 and ast.unparse(st.targets[0]) == after_store:
+                    idx = i
+                    break
+                if after_store and after_store.startswith('if:') and isinstance(st, ast.If) and st.orelse \
+                        and all(any(isinstance(x, ast.Assign) and len(x.targets) == 1 and ast.unparse(x.targets[0]) == after_store[3:]
+                                    for x in br) for br in (st.body, st.orelse)):
+                    idx = i
+                    break
+                if after_store:
+                    continue
                 if isinstance(st, ast.Assign) and len(st.targets) == 1 and isinstance(st.targets[0], ast.Name) \
                         and isinstance(st.value, ast.Call) and isinstance(st.value.func, ast.Attribute) and st.value.func.attr == after:
                     if dict(entry).get(st.targets[0].id) != 'slist':
@@ -561,7 +900,7 @@ class M:
                     idx = i
                     break
             if idx is None:
-                raise Unsupported('no call of ' + after)
+                raise Unsupported('no call of %s' % (after or after_store))
             body = body[idx + 1:]
             env = {'self': 'obj'}
             env.update(dict(entry))
@@ -672,11 +1011,11 @@ def lean_name(py):
     return parts[0] + ''.join(x.capitalize() for x in parts[1:])
 
 
-def translate(fns, order, point_fns=None, iter_fns=None):
+def translate(fns, order, point_fns=None, iter_fns=None, with_assertions=False, have=()):
     """fns: name -> ast.FunctionDef of class AnsiString; point_fns: the same for `_AnsiSettingPoint`;
     order: entries, callees first — a method name, or a dict(py=…, lean=…, after=…, entry=[(name, type)…])
     for a suffix, or dict(py=…, point=True, types={param: type}) for a point method -> Lean source"""
-    out, sigs = [], {}
+    out, sigs = [], {x: True for x in have}
     for spec in order:
         if isinstance(spec, str):
             spec = dict(py=spec)
@@ -706,6 +1045,7 @@ def translate(fns, order, point_fns=None, iter_fns=None):
                 m = M.__new__(M)
                 m.fn, m.sigs, m.aliased, m.pending, m.nread, m.sig, m.join = fn, dict(sigs), False, [], 0, None, False
                 out.append(m.lean_iter(ln, doc, spec['after_target'], spec['entry']))
+                sigs[ln] = True
             except Unsupported as e:
                 out.append('/-- %s — NOT TRANSLATED (%s) -/\ndef %s %s : Except Exc (List Setting) := .error .outside\ndef %sOk : Bool := false\n'
                            % (doc, str(e).replace('-/', ''), ln, ' '.join('(_%s : %s)' % (n, LEAN_T[t]) for n, t in spec['entry']), ln))
@@ -714,15 +1054,18 @@ def translate(fns, order, point_fns=None, iter_fns=None):
         doc = '`AnsiString.%s`, statement by statement' % nm
         if spec.get('after'):
             doc = '`AnsiString.%s`: the statements after the call of `%s`, statement by statement' % (nm, spec['after'])
+        if spec.get('after_store'):
+            doc = '`AnsiString.%s`: the statements after `%s = …`, statement by statement' % (nm, spec['after_store'])
         try:
             if fn is None:
                 raise Unsupported('no such method')
-            if spec.get('after'):
+            if spec.get('after') or spec.get('after_store'):
                 m = M.__new__(M)
                 m.fn, m.sigs, m.aliased, m.pending, m.nread = fn, dict(sigs), False, [], 0
                 m.sig = None
                 m.join = bool(spec.get('join'))
-                out.append(m.lean(ln, doc, spec['after'], spec['entry']))
+                m.with_assertions = with_assertions
+                out.append(m.lean(ln, doc, spec.get('after'), spec['entry'], spec.get('after_store')))
             else:
                 m = M(fn, dict(sigs))
                 out.append(m.lean(ln, doc))
@@ -730,7 +1073,7 @@ def translate(fns, order, point_fns=None, iter_fns=None):
         except Unsupported as e:
             ps = ''
             try:
-                if spec.get('after'):
+                if spec.get('after') or spec.get('after_store'):
                     ps = ' '.join('(_%s : %s)' % (n, LEAN_T[t]) for n, t in spec['entry'])
                 else:
                     ps = ' '.join('(_%s : %s)' % (n, LEAN_T[t]) for n, t, _ in Sig(fn).params) if fn is not None else ''
